@@ -341,23 +341,34 @@ Section HEngine.
 
   (* NestedEvent.trigger_nested in scope sc restricted to branch key: the loop over the
      resolve order computed ONCE from the configuration at entry; [done] = paths (relative
-     to sc) that must be skipped; result None/Some false/Some true *)
-  Fixpoint offer_loop (sc : path) (ts : list htrans) (order : list path) (done : list path)
-           (result : option bool) : HM (option bool) :=
+     to sc) that must be skipped; result None/Some false/Some true.  The loop is written over
+     an arbitrary [attempt] (offer the event to one source state) and additionally returns
+     the log of offers (source, configuration when offered, executed?) — a ghost output. *)
+  Definition offer : Type := (path * forest * bool)%type.
+
+  Fixpoint offer_loop_gen (attempt : path -> HM bool) (has_cands : path -> bool) (sc : path)
+           (order : list path) (done : list path) (result : option bool) : HM (option bool * list offer) :=
     match order with
-    | [] => ret result
+    | [] => ret (result, [])
     | p :: rest =>
-        if orb (existsb (path_eqb p) done) (match cands ts p with [] => true | _ => false end)
-        then offer_loop sc ts rest done result
+        if orb (existsb (path_eqb p) done) (negb (has_cands p))
+        then offer_loop_gen attempt has_cands sc rest done result
         else
           f <- get ;;
-          if negb (active f (sc ++ p)) then offer_loop sc ts rest done result
+          if negb (active f (sc ++ p)) then offer_loop_gen attempt has_cands sc rest done result
           else
-            run_cbs SPrepareEvent None (hm_prepare_event hm) ;;;
-            ok <- try_transitions sc (cands ts p) ;;
-            if ok then offer_loop sc ts rest (nonempty_prefixes p ++ done) (Some true)
-            else offer_loop sc ts rest done (match result with None => Some false | r => r end)
+            ok <- attempt p ;;
+            r <- (if ok then offer_loop_gen attempt has_cands sc rest (nonempty_prefixes p ++ done) (Some true)
+                  else offer_loop_gen attempt has_cands sc rest done (match result with None => Some false | r => r end)) ;;
+            ret (fst r, (p, f, ok) :: snd r)
     end.
+
+  Definition offer_loop (sc : path) (ts : list htrans) (order : list path) (done : list path)
+             (result : option bool) : HM (option bool * list offer) :=
+    offer_loop_gen
+      (fun p => run_cbs SPrepareEvent None (hm_prepare_event hm) ;;; try_transitions sc (cands ts p))
+      (fun p => match cands ts p with [] => false | _ => true end)
+      sc order done result.
 
   Definition trigger_nested (sc : path) (ts : list htrans) (key : nat) : HM (option bool) :=
     f <- get ;;
@@ -365,7 +376,7 @@ Section HEngine.
     | None => raise ValueError
     | Some cur =>
         let branch := match f_get cur key with Some ch => [Node key ch] | None => [] end in
-        offer_loop sc ts (resolve_order branch) [] None
+        r <- offer_loop sc ts (resolve_order branch) [] None ;; ret (fst r)
     end.
 
   (* HierarchicalMachine._trigger_event_nested: recursion over the (stale) active tree *)
